@@ -156,6 +156,60 @@ class Named(object):
         return self.base.choose(s, enabled)
 
 
+class PreemptAt(object):
+    """One directed preemption: thread `first` runs whenever it can until it has been granted `m` steps, then thread
+    `then` runs whenever it can (until it blocks or ends), everything else - and `first` afterwards - follows `base`.
+    Sweeping m over the steps of an operation places the other thread's whole operation at every point inside it."""
+
+    def __init__(self, first, m, then, base=None):
+        self.first, self.m, self.then = first, m, then
+        self.base = base or Sticky()
+
+    def choose(self, s, enabled):
+        by = {r.name: r for r in enabled}
+        f = by.get(self.first)
+        if f is not None and f.steps < self.m:
+            return f
+        fr = s.by_name.get(self.first)
+        if fr is not None and fr.steps >= self.m:
+            t = by.get(self.then)
+            if t is not None:
+                return t
+        rest = [r for r in enabled if r.name != self.first] if (fr is not None and fr.steps >= self.m and
+                                                                 s.by_name.get(self.then) is not None and
+                                                                 s.by_name[self.then].state != "finished") else enabled
+        return self.base.choose(s, rest or enabled)
+
+
+class Phases(object):
+    """Directed schedule with a bounded number of preemptions: phases = [[thread, quota], ...]; in each phase the
+    named thread runs whenever it is enabled until it has been granted `quota` steps in that phase (or it ends);
+    when it cannot run, the base strategy picks among the OTHER threads that are not named in a later phase."""
+
+    def __init__(self, phases, base=None):
+        self.phases = [list(p) for p in phases]
+        self.i = 0
+        self.used = 0
+        self.base = base or Sticky()
+
+    def choose(self, s, enabled):
+        while self.i < len(self.phases):
+            name, quota = self.phases[self.i]
+            rec = s.by_name.get(name)
+            if self.used >= quota or (rec is not None and rec.state == "finished"):
+                self.i += 1
+                self.used = 0
+                continue
+            for r in enabled:
+                if r.name == name:
+                    self.used += 1
+                    return r
+            later = set(p[0] for p in self.phases[self.i:])
+            rest = [r for r in enabled if r.name not in later]
+            return self.base.choose(s, rest or enabled)
+        return self.base.choose(s, enabled)
+
+
 def make(spec):
     """Build a strategy from a JSON-able spec."""
     k = spec[0]
@@ -173,6 +227,10 @@ def make(spec):
     if k == "placement":
         return Placement(spec[1], make(spec[2]) if len(spec) > 2 and spec[2] else None,
                          spec[3] if len(spec) > 3 else None)
+    if k == "phases":
+        return Phases(spec[1], make(spec[2]) if len(spec) > 2 and spec[2] else None)
+    if k == "preempt":
+        return PreemptAt(spec[1], spec[2], spec[3], make(spec[4]) if len(spec) > 4 and spec[4] else None)
     if k == "named":
         return Named(spec[1], make(spec[2]) if len(spec) > 2 and spec[2] else None)
     raise ValueError(spec)
